@@ -39,6 +39,14 @@ CHECKS = {
    text="Every version triple {0,1} x {0..20} x {0..40} (quick: 10 patch values, product thinned away from the thresholds, full near them) x 11 operator spellings x 6 placements (unrelated pragmas before/after, solidity pragma last) x 3 bodies (SafeMath attached at contract level / file level / not attached) holding add/sub/mul/div call sites and require strings of 0,1,31,32,33,64 bytes and 16 two-byte characters; plus call sites and require strings in every syntactic hole for 0.7.6/0.8.0/0.8.3/0.8.4. Oracle: thresholds 0.8.0 / 0.8.4 on the triple the harness printed; never both SafeMath detectors; monotonicity follows from agreement with the threshold function on the whole grid.",
    note="Trusted: reference definitions 8.25–8.28. Files with several or partial solidity pragmas are outside the quantifier (gray).",
    technique="exhaustive enumeration of the version grid x spellings x placements against a threshold oracle"),
+ "C10": dict(engine="c10+refdet", ref="7/C10, 8.29-8.30",
+   text="(i) get_type_size on every elementary type spelling (uint8..uint256, int8..int256, bytes1..bytes32, aliases) and every non-elementary kind parsed from a real declaration; (ii) storage_slots_used on ALL sequences of length 0..4 (quick, 1.08 M) / 0..5 (thorough, 34.6 M) over the 32 byte-granular sizes against an independently written first-fit model; (iii) pack_storage_variables and pack_struct_variables on parsed files whose contracts and structs (file-level and nested, with interleaved functions/events, type spellings rotated) realise every size sequence of length <= 3, every length-4 sequence over 12 sizes (quick) / all 32 (thorough) and length 5 over 12 sizes (thorough): reported => some permutation saves a slot (brute force over all permutations), both sort directions save => reported, declared optimal => never reported.",
+   note="Trusted: the slot model as stated in the property (sizes, consecutive first-fit); members that are constant/immutable are outside the decided alphabet (gray).",
+   technique="exhaustive enumeration of size sequences up to a length bound against a brute-force permutation oracle"),
+ "C19": dict(engine="c19", ref="7/C19",
+   text="All sequences with repetition of 2 items (x pragma placed first / between / last) and of 3 items (quick: every 4th; thorough: all) from a pool of 19 top-level item templates (contracts with constructor before/after functions, written / unwritten / constructor-assigned variables, single narrow variable, optimal and packable layouts, library, interface, free function, structs, constants, selfdestruct, memory parameters, unchecked blocks, require strings, ...), each instance with fresh identifier suffixes; for each of the 28 non-SafeMath detectors the lines reported for the whole file must equal the union of the lines reported for the item-wise blanked files (line breaks and pragmas kept). Leaks and suppressions are both violations.",
+   note="Trusted: nothing beyond the detectors themselves: the oracle is differential (same detector on the blanked files). Bounded to 3 items from the pool.",
+   technique="bounded-exhaustive enumeration of item sequences with a differential (compositionality) oracle"),
 }
 ALL = ["C%02d" % i for i in range(1, 20)]
 NOT_YET = "check not built yet in this revision of /verif (see DESIGN.md section 7 for the planned decision procedure)"
